@@ -97,7 +97,7 @@ def _parse(text):
 @st.composite
 def _case(draw, maxstages, maxdepth):
     is_typed = draw(st.booleans())
-    naming = draw(st.sampled_from(["distinct", "same", "reuse", "reuse"]))
+    naming = draw(st.sampled_from(["distinct", "same", "reuse", "reuse", "argn", "argmix"]))
     streams = [{"id": 0, "type": typed.EVT}]
     stages = []
     nst = draw(st.integers(1, maxstages))
